@@ -141,7 +141,7 @@ def adapted_fields(cl: type) -> list[Attribute]:
         if any(isinstance(a.type, str) for a in attrs):
             # Do this conditionally in case `get_type_hints` fails, so
             # users can resolve on their own first.
-            type_hints = get_type_hints(cl)
+            type_hints = get_type_hints(cl, include_extras=True)
         else:
             type_hints = {}
         return [
